@@ -15,7 +15,12 @@
 (* end of the previous one and left at start + declared length; what lies  *)
 (* between the end of the content and the declared end is skipped.  A      *)
 (* declared length that is shorter than the content is an error.  The      *)
-(* message's own octets are the span BUFR .. 7777 whatever follows.        *)
+(* message's own octets are the span BUFR .. 7777 whatever follows - and  *)
+(* whatever precedes: the reader starts at the first start signature.      *)
+(*                                                                         *)
+(* OVERRIDE.  The writer may be told a master table version that replaces  *)
+(* the one given with the input (Encoder(master_table_version=..)): the    *)
+(* octet in section 1 is then the override, nothing else changes.          *)
 (*                                                                         *)
 (* Data sections are nb one-bit flags (template 1 01 nb, 0 31 031) so that *)
 (* every bit length can be produced; the bits alternate 1 0 1 0 ...        *)
@@ -29,19 +34,19 @@ CONSTANTS EditionsC,      \* subset of {2,3,4}
           Surplus,        \* set of declared-minus-real lengths offered for sections 1..4 (e.g. {-1,0,1,2})
           MaxChanged      \* at most this many sections get a non-zero surplus at once
 
-VARIABLES ed, l2, nb, xo, policy, sur, totmode, trailing, shrink,   \* chosen in Init
+VARIABLES ed, l2, nb, xo, policy, sur, totmode, trailing, shrink, leading, ovr,  \* chosen in Init
           stage,      \* writer: 0..6 sections written; 7 = total patched / checked; then reader 8..14
           octs,       \* octets written so far
           starts,     \* start offset (0-based) of every section written
           outcome,    \* "" | "Refuse" | "Done"
           rpos, rerr, rlen   \* reader: position, error flag, declared lengths seen
 
-vars == <<ed, l2, nb, xo, policy, sur, totmode, trailing, shrink, stage, octs, starts, outcome, rpos, rerr, rlen>>
+vars == <<ed, l2, nb, xo, policy, sur, totmode, trailing, shrink, leading, ovr, stage, octs, starts, outcome, rpos, rerr, rlen>>
 
 Ids == (IF nb = 0 THEN <<201000>> ELSE <<101000 + nb, 31031>>) \o [i \in 1..xo |-> 201000]
 DataBitsSeq == [i \in 1..nb |-> i % 2]
 Has2 == l2 >= 0
-F == Ident0
+F == IF ovr = 0 THEN Ident0 ELSE [Ident0 EXCEPT !.mversion = ovr]
 
 (* content octets of section i (1..4) WITHOUT the three length octets, not padded *)
 Content(i) ==
@@ -77,6 +82,10 @@ Init ==
                    /\ s[3] \in (IF ed <= 3 THEN {-1, 0, 99} ELSE {-1, 0, 1, 99})}
     /\ totmode \in {"zero", "exact", "off"}          \* declared total: 0, the right number, or one too many
     /\ trailing \in {<<>>, <<13, 10, 66, 85>>}
+    \* bytes in front of the message (a bulletin heading that ends in a partial signature); only with the plain writer
+    /\ leading \in (IF policy = "recompute" /\ \A i \in 1..4 : sur[i] = 0 THEN {<<>>, <<1, 13, 13, 10, 48, 49, 66, 85, 70>>} ELSE {<<>>})
+    \* master table version forced by the writer's option (0: none)
+    /\ ovr \in (IF policy = "recompute" /\ (\A i \in 1..4 : sur[i] = 0) /\ trailing = <<>> THEN {0, 14, 35} ELSE {0})
     /\ (policy = "recompute" => totmode = "zero")
     \* a damaged copy for the reader: the declared length of section 1 or 4 made one octet shorter
     /\ shrink \in (IF policy = "recompute" /\ \A i \in 1..4 : sur[i] = 0 THEN {0, 1, 4} ELSE {0})
@@ -88,7 +97,7 @@ WriteSection0 ==
     /\ Writing /\ stage = 0
     /\ octs' = BUFR \o <<0, 0, 0>> \o <<ed>>              \* total length is patched at the end
     /\ starts' = <<0>> /\ stage' = 1
-    /\ UNCHANGED <<ed, l2, nb, xo, policy, sur, totmode, trailing, shrink, outcome, rpos, rerr, rlen>>
+    /\ UNCHANGED <<ed, l2, nb, xo, policy, sur, totmode, trailing, shrink, leading, ovr, outcome, rpos, rerr, rlen>>
 
 WriteSection(i) ==
     /\ Writing /\ stage = i /\ i \in 1..4
@@ -98,12 +107,12 @@ WriteSection(i) ==
        ELSE /\ octs' = octs \o SectionOctets(i)
             /\ starts' = Append(starts, Len(octs))
             /\ stage' = i + 1 /\ UNCHANGED outcome
-    /\ UNCHANGED <<ed, l2, nb, xo, policy, sur, totmode, trailing, shrink, rpos, rerr, rlen>>
+    /\ UNCHANGED <<ed, l2, nb, xo, policy, sur, totmode, trailing, shrink, leading, ovr, rpos, rerr, rlen>>
 
 WriteSection5 ==
     /\ Writing /\ stage = 5
     /\ octs' = octs \o SEVENS /\ starts' = Append(starts, Len(octs)) /\ stage' = 6
-    /\ UNCHANGED <<ed, l2, nb, xo, policy, sur, totmode, trailing, shrink, outcome, rpos, rerr, rlen>>
+    /\ UNCHANGED <<ed, l2, nb, xo, policy, sur, totmode, trailing, shrink, leading, ovr, outcome, rpos, rerr, rlen>>
 
 (* the total length is back-patched (recompute, or declared 0) or checked against the declaration *)
 PatchTotal ==
@@ -113,20 +122,22 @@ PatchTotal ==
        IN IF totmode = "off" THEN outcome' = "Refuse" /\ UNCHANGED octs
           ELSE octs' = patched /\ outcome' = "Done"
     /\ stage' = 7
-    /\ UNCHANGED <<ed, l2, nb, xo, policy, sur, totmode, trailing, shrink, starts, rpos, rerr, rlen>>
+    /\ UNCHANGED <<ed, l2, nb, xo, policy, sur, totmode, trailing, shrink, leading, ovr, starts, rpos, rerr, rlen>>
 
 (* ---- reader: over the written message followed by the trailing bytes ----------- *)
 Shrunk == IF shrink = 0 THEN octs
           ELSE LET at == starts[shrink + 1] IN SubSeq(octs, 1, at) \o U(U3(octs, at) - 1, 3) \o SubSeq(octs, at + 4, Len(octs))
-Input == Shrunk \o trailing
+Input == leading \o Shrunk \o trailing
+(* offset of the first start signature in the input: where the reader begins *)
+Base == CHOOSE i \in 0..(Len(Input) - 4) : SubSeq(Input, i + 1, i + 4) = BUFR /\ \A j \in 0..(i - 1) : SubSeq(Input, j + 1, j + 4) # BUFR
 Reading == outcome = "Done" /\ stage >= 7 /\ stage <= 13 /\ ~rerr
 ContentBits(i) == IF i = 4 THEN 8 * 4 + nb ELSE 8 * (3 + Len(Content(i)))
 
 ReadSection0 ==
     /\ Reading /\ stage = 7
-    /\ rpos' = 8 /\ stage' = 8 /\ rlen' = <<U3(Input, 4)>>
-    /\ rerr' = (SubSeq(Input, 1, 4) # BUFR)
-    /\ UNCHANGED <<ed, l2, nb, xo, policy, sur, totmode, trailing, shrink, octs, starts, outcome>>
+    /\ rpos' = Base + 8 /\ stage' = 8 /\ rlen' = <<U3(Input, Base + 4)>>
+    /\ rerr' = FALSE
+    /\ UNCHANGED <<ed, l2, nb, xo, policy, sur, totmode, trailing, shrink, leading, ovr, octs, starts, outcome>>
 
 ReadSection(i) ==
     /\ Reading /\ stage = 7 + i /\ i \in 1..4
@@ -136,13 +147,13 @@ ReadSection(i) ==
             /\ rerr' = (8 * n < ContentBits(i))          \* declared shorter than the content
             /\ rpos' = rpos + n                           \* surplus octets are skipped
     /\ stage' = stage + 1
-    /\ UNCHANGED <<ed, l2, nb, xo, policy, sur, totmode, trailing, shrink, octs, starts, outcome>>
+    /\ UNCHANGED <<ed, l2, nb, xo, policy, sur, totmode, trailing, shrink, leading, ovr, octs, starts, outcome>>
 
 ReadSection5 ==
     /\ Reading /\ stage = 12
     /\ rerr' = (SubSeq(Input, rpos + 1, rpos + 4) # SEVENS)
     /\ rpos' = rpos + 4 /\ stage' = 13
-    /\ UNCHANGED <<ed, l2, nb, xo, policy, sur, totmode, trailing, shrink, octs, starts, outcome, rlen>>
+    /\ UNCHANGED <<ed, l2, nb, xo, policy, sur, totmode, trailing, shrink, leading, ovr, octs, starts, outcome, rlen>>
 
 Next == WriteSection0 \/ (\E i \in 1..4 : WriteSection(i)) \/ WriteSection5 \/ PatchTotal
         \/ ReadSection0 \/ (\E i \in 1..4 : ReadSection(i)) \/ ReadSection5
@@ -169,11 +180,13 @@ HonourRefusesShorter ==
     (policy = "honour" /\ \E i \in 1..4 : Present(i) /\ sur[i] # 99 /\ sur[i] < 0) => outcome # "Done"
 HonourFillsLonger ==
     (Written /\ policy = "honour") => \A i \in 1..4 : (Present(i) /\ sur[i] \in 1..98) => WrittenLen(i) = RealLen(i) + sur[i]
-ReaderConsumesExactly == (stage = 13 /\ ~rerr /\ shrink = 0) => rpos = Len(octs) /\ rlen[1] = Len(octs)
+ReaderConsumesExactly == (stage = 13 /\ ~rerr /\ shrink = 0) => rpos = Len(leading) + Len(octs) /\ rlen[1] = Len(octs)
+ReaderStartsAtMessage == stage >= 8 => Base = Len(leading)
+OverrideOnlyChangesVersion == (Written /\ ovr # 0) => octs[8 + (IF ed = 4 THEN 14 ELSE 11)] = ovr
 ReaderNeverFailsOnWritten == (stage >= 7 /\ shrink = 0) => ~rerr        \* what the writer emits, the reader accepts
 ShortDeclaredIsError == (shrink # 0 /\ stage = 13) => rerr             \* a shrunk section never reads through
 
-Case == [ed |-> ed, l2 |-> l2, nb |-> nb, xo |-> xo, ids |-> Ids, policy |-> policy, sur |-> sur, totmode |-> totmode,
+Case == [leading |-> leading, ovr |-> ovr, ed |-> ed, l2 |-> l2, nb |-> nb, xo |-> xo, ids |-> Ids, policy |-> policy, sur |-> sur, totmode |-> totmode,
          trailing |-> trailing, outcome |-> outcome, shrink |-> shrink, input |-> IF outcome = "Done" THEN Input ELSE <<>>, rerr |-> rerr,
          declared |-> [i \in 1..4 |-> IF Present(i) THEN DeclaredOrZero(i) ELSE 0],
          real |-> [i \in 1..4 |-> IF Present(i) THEN RealLen(i) ELSE 0],
